@@ -246,7 +246,9 @@ def order_family(chk, tier):
         graphs = graphs[:3000]
     t3, i3 = DO.layout_seed_traces(graphs, seeds)
     chk.rules.append("%d TLC-enumerated model graphs (MC_Layout) laid out flat and nested in fresh processes under each seed" % len(graphs))
-    chk.validate("Trace_Order", t1 + t2 + t3, dict(dict(i1, **i2), **i3), shard=40)
+    t4, i4 = DO.words_traces(chk, 3 if quick else 4)
+    chk.exhaustive_parts.append("MC_Names: distinct_words over every set of <=%d words with explicit iteration orders" % (3 if quick else 4))
+    chk.validate("Trace_Order", t1 + t2 + t3 + t4, dict(dict(dict(i1, **i2), **i3), **i4), shard=40)
 
 
 def replay_case(pid, path):
